@@ -158,3 +158,433 @@ Proof.
   { induction toks0 as [|t r IH]; intros st0; [reflexivity|]. cbn [mu_seq map call_seq]. rewrite Hsep, make_unique_is_call, IH. reflexivity. }
   rewrite E. apply call_seq_nodup. induction toks as [|t r IH]; [reflexivity|]. cbn [map forallb]. rewrite mu_base_ok. exact IH.
 Qed.
+
+(* ====================================================================================================== *)
+(* page level: the ids of the emitter are EXACTLY the plain ids interleaved with one make_unique sequence  *)
+(* ====================================================================================================== *)
+Opaque nested_id_sep.
+Ltac nilr := repeat match goal with |- context [?l ++ @nil (list N)] => rewrite (app_nil_r l) end.
+
+Lemma mu_seq_app a : forall st b,
+  mu_seq st (a ++ b) = (fst (mu_seq (fst (mu_seq st a)) b), snd (mu_seq st a) ++ snd (mu_seq (fst (mu_seq st a)) b)).
+Proof.
+  induction a as [|t r IH]; intros st b; [cbn; destruct (mu_seq st b); reflexivity|].
+  cbn [app mu_seq]. cbv zeta. rewrite IH. reflexivity.
+Qed.
+
+Definition top (t : ty) : list str :=
+  match t with Comp c _ => [filter_tag_id (ci_t c)] | Arr es _ _ _ => [filter_tag_id (arr_tinfo es)] | Prim _ => [] end.
+Fixpoint toks_ty (t : ty) (nested : bool) {struct t} : list str :=
+  match t with
+  | Prim _ => []
+  | Comp c a => (if nested then [filter_tag_id (ci_t c)] else []) ++ toks_attrs a
+  | Arr es _ _ e => (if nested then [filter_tag_id (arr_tinfo es)] else []) ++ toks_ty e true
+  end
+with toks_attrs (a : attrs) {struct a} : list str :=
+  match a with
+  | ANil => []
+  | ANested _ _ t r => toks_ty t true ++ toks_attrs r
+  | APlain _ _ _ _ r => toks_attrs r
+  end.
+
+Lemma emit_attrs_nested cf up st nm doc t rest :
+  emit_attrs cf up st (ANested nm doc t rest)
+  = (fst (emit_attrs cf up (fst (emit_ty cf up st t nm true)) rest),
+     snd (emit_ty cf up st t nm true) ++ doc_pre (de_ti cf) [(k_class, s_docs)] doc ++ snd (emit_attrs cf up (fst (emit_ty cf up st t nm true)) rest)).
+Proof. reflexivity. Qed.
+
+Section Exact.
+Variable cf : cfg.
+Variable up : str.
+Notation B := (ae_ti cf).
+
+Lemma emit_ty_exact :
+  (forall t st nm nested,
+     fst (emit_ty cf up st t nm nested) = fst (mu_seq st (toks_ty t nested))
+     /\ ids (snd (emit_ty cf up st t nm nested)) = map (tx B) ((if nested then [] else top t) ++ snd (mu_seq st (toks_ty t nested))))
+  /\ (forall a st,
+        fst (emit_attrs cf up st a) = fst (mu_seq st (toks_attrs a))
+        /\ ids (snd (emit_attrs cf up st a)) = map (tx B) (snd (mu_seq st (toks_attrs a)))).
+Proof.
+  apply ty_attrs_ind.
+  - intros c a IHa st nm nested. cbn [emit_ty]. cbv zeta. cbn [fst snd].
+    destruct nested.
+    + split.
+      * cbn [toks_ty app mu_seq]. cbv zeta. cbn [fst]. destruct a; [reflexivity|exact (proj1 (IHa _))|exact (proj1 (IHa _))].
+      * rewrite !vals_of_app, !vals_of_elem, !vals_of_app;
+        rewrite (ids_opt (ci_port c)), !ids_if, ids_docp, ids_toggle by reflexivity;
+        change (attr_vals k_id [(k_class, dep_class (ae_ti cf) (ci_deprecated c))]) with (@nil str);
+        match goal with |- context [attr_vals k_id [(k_class, ?x); (k_id, ?y)]] =>
+          change (attr_vals k_id [(k_class, x); (k_id, y)]) with [y] end;
+        cbn [app]; nilr; rewrite ?vals_of_elem; cbn [app vals_of flat_map attr_vals]; nilr;
+        try change (str_eqb k_id k_href) with false; cbv iota; cbn [app toks_ty top mu_seq]; cbv zeta; cbn [fst snd map].
+        f_equal. destruct a; [reflexivity|exact (proj2 (IHa _))|exact (proj2 (IHa _))].
+    + split.
+      * cbn [toks_ty app]. destruct a; [reflexivity|exact (proj1 (IHa _))|exact (proj1 (IHa _))].
+      * rewrite !vals_of_app, !vals_of_elem, !vals_of_app;
+        rewrite (ids_opt (ci_port c)), !ids_if, ids_docp, ids_toggle by reflexivity;
+        change (attr_vals k_id [(k_class, dep_class (ae_ti cf) (ci_deprecated c))]) with (@nil str);
+        match goal with |- context [attr_vals k_id [(k_class, ?x); (k_id, ?y)]] =>
+          change (attr_vals k_id [(k_class, x); (k_id, y)]) with [y] end;
+        cbn [app]; nilr; rewrite ?vals_of_elem; cbn [app vals_of flat_map attr_vals]; nilr;
+        try change (str_eqb k_id k_href) with false; cbv iota; cbn [app toks_ty top]; cbn [map].
+        f_equal. destruct a; [reflexivity|exact (proj2 (IHa _))|exact (proj2 (IHa _))].
+  - intros es dep d e IHe st nm nested. cbn [emit_ty]. cbv zeta. cbn [fst snd].
+    destruct nested; (split; [cbn [toks_ty app mu_seq]; cbv zeta; cbn [fst]; exact (proj1 (IHe _ _ _))|]);
+      rewrite !vals_of_app, !vals_of_elem, !vals_of_app;
+      rewrite ids_toggle, (ids_tx_markup _ _ (ids_disp_type _)), ids_span;
+      change (attr_vals k_id [(k_class, dep_class (ae_ti cf) dep)]) with (@nil str);
+      match goal with |- context [attr_vals k_id [(k_class, ?x); (k_id, ?y)]] => change (attr_vals k_id [(k_class, x); (k_id, y)]) with [y] end;
+      cbn [app vals_of flat_map attr_vals]; nilr; cbn [app toks_ty top mu_seq]; cbv zeta; cbn [fst snd map]; f_equal; exact (proj2 (IHe _ _ _)).
+  - intros s st nm nested. cbn [emit_ty fst snd toks_ty top mu_seq]. destruct nested; split; reflexivity.
+  - intros st. split; reflexivity.
+  - intros nm doc t IHt rest IHr st. rewrite emit_attrs_nested. cbn [fst snd toks_attrs]. rewrite mu_seq_app. cbn [fst snd].
+    destruct (IHt st nm true) as [F1 I1]. cbn [app] in I1. rewrite <- F1. destruct (IHr (fst (emit_ty cf up st t nm true))) as [F2 I2].
+    split; [exact F2|]. rewrite !vals_of_app, ids_doc_docs, I1, I2, map_app. reflexivity.
+  - intros di isf lb doc rest IHr st. cbn [emit_attrs]. cbv zeta. cbn [fst snd toks_attrs]. destruct (IHr st) as [F2 I2].
+    split; [exact F2|]. rewrite !vals_of_app, !vals_of_elem, !vals_of_app, ids_doc_docs.
+    rewrite (ids_tx_markup _ _ (ids_disp_inst _)), ids_if by reflexivity. cbn [app]. exact I2.
+Qed.
+End Exact.
+
+(* ---------- filters ---------- *)
+Notation np := (fun x => negb (nested_shape x)).
+Lemma filter_all {A} (p : A -> bool) l : forallb p l = true -> filter p l = l /\ filter (fun x => negb (p x)) l = [].
+Proof.
+  induction l as [|x l IH]; intros H; [split; reflexivity|]. cbn in *. apply andb_prop in H as [Hx Hl]. rewrite Hx. cbn.
+  destruct (IH Hl) as [E1 E2]. rewrite E1, E2. split; reflexivity.
+Qed.
+Lemma filter_none {A} (p : A -> bool) l : forallb (fun x => negb (p x)) l = true -> filter p l = [] /\ filter (fun x => negb (p x)) l = l.
+Proof.
+  induction l as [|x l IH]; intros H; [split; reflexivity|]. cbn in *. apply andb_prop in H as [Hx Hl].
+  destruct (p x); [discriminate|]. cbn. destruct (IH Hl) as [E1 E2]. rewrite E1, E2. split; reflexivity.
+Qed.
+Lemma map_tx_false l : map (tx false) l = l.
+Proof. induction l as [|x l IH]; [reflexivity|]. cbn. rewrite IH. reflexivity. Qed.
+
+Lemma mu_seq_all_nested st toks : nested_id_sep = s_dash_n -> forallb nested_shape (snd (mu_seq st toks)) = true.
+Proof.
+  intros Hsep. revert st. induction toks as [|t r IH]; intros st; [reflexivity|]. cbn [mu_seq]. cbv zeta. cbn [snd forallb].
+  rewrite Hsep at 1. rewrite make_unique_shape. apply IH.
+Qed.
+
+Lemma ns_id_not_nested name : nested_shape (ns_id name) = false.
+Proof. unfold nested_shape, ns_id. rewrite ns_scheme_now, rev_app_distr. reflexivity. Qed.
+
+Lemma tag_not_nested t : ti_is_array t = false -> version_ok t = true -> nested_shape (filter_tag_id t) = false.
+Proof.
+  intros Harr Hv. destruct (version_ok_spec _ Hv) as [_ [Mi _]]. rewrite (tag_id_shape (proj1 id_scheme_now) t Harr). unfold dash_shape, nested_shape.
+  rewrite rev_app_distr. cbn [rev]. rewrite <- app_assoc.
+  rewrite (drop_while_pref_all is_digit _ _ (eq_trans (forallb_rev _ _) (dec_Z_digits _ Mi))). reflexivity.
+Qed.
+
+(* ---------- types of one namespace ---------- *)
+Definition toks_types (ts : list (str * ty)) : list str :=
+  flat_map (fun e => if str_eqb (fst e) namespace_doc_key then [] else toks_ty (snd e) false) ts.
+Definition plain_types (ts : list (str * ty)) : list str := map (fun c => filter_tag_id (ci_t c)) (listed ts).
+Definition type_ok (c : cinfo) : Prop := ti_is_array (ci_t c) = false /\ version_ok (ci_t c) = true.
+
+Section Levels.
+Variable cf : cfg.
+Hypothesis Hti : ae_ti cf = false.
+Hypothesis Hni : ae_ni cf = false.
+Hypothesis Hsb : ae_sb cf = false.
+Variable up : str.
+Let Hsep := proj2 id_scheme_now.
+
+Lemma emit_types_exact ts : forallb (fun e => is_comp (snd e)) ts = true -> (forall c, In c (listed ts) -> type_ok c) ->
+  forall st, fst (emit_types cf up st ts) = fst (mu_seq st (toks_types ts))
+             /\ filter nested_shape (ids (snd (emit_types cf up st ts))) = snd (mu_seq st (toks_types ts))
+             /\ filter np (ids (snd (emit_types cf up st ts))) = plain_types ts.
+Proof.
+  induction ts as [|[sn t] r IH]; intros Hc Hok st; [repeat split; reflexivity|].
+  cbn [forallb snd] in Hc. apply andb_prop in Hc as [Ht Hr]. unfold listed in Hok. cbn [flat_map fst snd] in Hok. fold (listed r) in Hok.
+  unfold toks_types, plain_types, listed. cbn [flat_map fst snd emit_types]. fold (listed r). fold (toks_types r).
+  destruct (str_eqb sn namespace_doc_key).
+  - cbn [app]. apply IH; [exact Hr|]. intros c Hin. apply Hok. exact Hin.
+  - destruct t as [c a| |]; try discriminate Ht. cbn [comp_info app map]. cbv zeta. cbn [fst snd].
+    destruct (proj1 (emit_ty_exact cf up) (Comp c a) st [] false) as [F1 I1]. cbn [top app] in I1. rewrite Hti, map_tx_false in I1.
+    assert (Hin : type_ok c) by (apply Hok; left; reflexivity). destruct Hin as [Ha Hv].
+    destruct (IH Hr (fun c0 H0 => Hok c0 (or_intror H0)) (fst (emit_ty cf up st (Comp c a) [] false))) as (F2 & P2 & Q2).
+    rewrite mu_seq_app. cbn [fst snd]. rewrite <- F1. split; [exact F2|].
+    rewrite vals_of_app, !filter_app, I1, P2, Q2. cbn [filter]. rewrite (tag_not_nested _ Ha Hv). cbn [negb].
+    destruct (filter_all nested_shape _ (mu_seq_all_nested st (toks_ty (Comp c a) false) Hsep)) as [A B]. rewrite A, B.
+    split; reflexivity.
+Qed.
+End Levels.
+
+(* ---------- namespace trees ---------- *)
+Fixpoint toks_ns (n : nst) : list str := match n with NS _ _ ts subs => toks_types ts ++ toks_nsl subs end
+with toks_nsl (l : nsl) : list str := match l with NNil => [] | NCons n r => toks_ns n ++ toks_nsl r end.
+Fixpoint plain_ns (n : nst) : list str := match n with NS name _ ts subs => ns_id name :: plain_types ts ++ plain_nsl subs end
+with plain_nsl (l : nsl) : list str := match l with NNil => [] | NCons n r => plain_ns n ++ plain_nsl r end.
+
+Lemma emit_ns_unfold cf up st name docs types subs :
+  emit_ns cf up st (NS name docs types subs)
+  = (fst (emit_nsl cf up (fst (emit_types cf up st types)) subs),
+     elem t_p [(k_class, s_fstitalic)] (toggle_anchor (ae_ni cf) s_jsvoid2 (ns_id name) s_toggle2 ++ [PText (tx (ae_ni cf) name)])
+     ++ elem t_div [(k_class, s_collapse_ns); (k_id, tx (ae_ni cf) (ns_id name))]
+          (match filter_namespace_doc docs with [] => [] | _ => doc_pre (de_ni cf) [] (filter_namespace_doc docs) end
+           ++ snd (emit_types cf up st types) ++ snd (emit_nsl cf up (fst (emit_types cf up st types)) subs))).
+Proof. reflexivity. Qed.
+Lemma emit_nsl_cons cf up st n r :
+  emit_nsl cf up st (NCons n r)
+  = (fst (emit_nsl cf up (fst (emit_ns cf up st n)) r), snd (emit_ns cf up st n) ++ snd (emit_nsl cf up (fst (emit_ns cf up st n)) r)).
+Proof. reflexivity. Qed.
+Lemma emit_sidebar_unfold cf name docs types subs :
+  emit_sidebar cf (NS name docs types subs)
+  = elem t_p [(k_class, s_textnowrap)]
+      (elem t_a [(k_target, s_hash ++ tx (ae_sb cf) (ns_id name) ++ s_sidebar_sfx);
+                 (k_onclick, s_toggle1 ++ tx (ae_sb cf) (ns_id name) ++ s_sidebar_sfx ++ s_toggle2_sidebar);
+                 (k_controls, tx (ae_sb cf) (ns_id name) ++ s_sidebar_sfx)] [PText s_plus]
+       ++ elem t_a [(k_href, s_hash ++ tx (ae_sb cf) (ns_id name)); (k_class, s_sidebar_a_cls)] [PText (tx (ae_sb cf) name)])
+    ++ elem t_div [(k_class, s_collapse); (k_id, tx (ae_sb cf) (ns_id name) ++ s_sidebar_sfx)]
+         (match filter_namespace_doc docs with [] => [] | _ => doc_pre (de_sb cf) [] (filter_namespace_doc docs) end
+          ++ sidebar_types cf types ++ emit_sidebar_l cf subs).
+Proof. reflexivity. Qed.
+
+Fixpoint types_ok_ns (n : nst) : Prop :=
+  match n with NS _ _ ts subs => (forall c, In c (listed ts) -> type_ok c) /\ types_ok_nsl subs end
+with types_ok_nsl (l : nsl) : Prop := match l with NNil => True | NCons n r => types_ok_ns n /\ types_ok_nsl r end.
+
+Section Levels2.
+Variable cf : cfg.
+Hypothesis Hti : ae_ti cf = false.
+Hypothesis Hni : ae_ni cf = false.
+Hypothesis Hsb : ae_sb cf = false.
+Variable up : str.
+Let Hsep := proj2 id_scheme_now.
+
+Lemma ids_doc_opt (b : bool) (d : str) : ids (match d with [] => [] | _ => doc_pre b [] d end) = [].
+Proof. destruct d; reflexivity. Qed.
+
+Lemma emit_ns_exact :
+  (forall n st, tops_ok n = true -> types_ok_ns n ->
+     fst (emit_ns cf up st n) = fst (mu_seq st (toks_ns n))
+     /\ filter nested_shape (ids (snd (emit_ns cf up st n))) = snd (mu_seq st (toks_ns n))
+     /\ filter np (ids (snd (emit_ns cf up st n))) = plain_ns n)
+  /\ (forall l st, tops_ok_l l = true -> types_ok_nsl l ->
+        fst (emit_nsl cf up st l) = fst (mu_seq st (toks_nsl l))
+        /\ filter nested_shape (ids (snd (emit_nsl cf up st l))) = snd (mu_seq st (toks_nsl l))
+        /\ filter np (ids (snd (emit_nsl cf up st l))) = plain_nsl l).
+Proof.
+  apply nst_nsl_ind.
+  - intros name docs types subs IH st Hok Hty. cbn [tops_ok] in Hok. apply andb_prop in Hok as [Ht Hs]. cbn [types_ok_ns] in Hty. destruct Hty as [Hty Htys].
+    rewrite emit_ns_unfold. cbn [fst snd toks_ns plain_ns]. rewrite mu_seq_app. cbn [fst snd].
+    destruct (emit_types_exact cf Hti up types Ht Hty st) as (F1 & P1 & Q1).
+    destruct (IH (fst (emit_types cf up st types)) Hs Htys) as (F2 & P2 & Q2). rewrite <- F1.
+    split; [exact F2|].
+    rewrite !vals_of_app, !vals_of_elem, !vals_of_app, ids_toggle, ids_doc_opt.
+    change (attr_vals k_id [(k_class, s_fstitalic)]) with (@nil str).
+    match goal with |- context [attr_vals k_id [(k_class, ?x); (k_id, ?y)]] => change (attr_vals k_id [(k_class, x); (k_id, y)]) with [y] end.
+    cbn [app vals_of flat_map]. nilr. rewrite Hni. cbn [tx filter]. rewrite ns_id_not_nested. cbn [negb].
+    rewrite !filter_app, P1, P2, Q1, Q2. split; reflexivity.
+  - intros st _ _. repeat split; reflexivity.
+  - intros n IHn r IHr st Hok Hty. cbn [tops_ok_l] in Hok. apply andb_prop in Hok as [Hn Hr]. cbn [types_ok_nsl] in Hty. destruct Hty as [Hty1 Hty2].
+    rewrite emit_nsl_cons. cbn [fst snd toks_nsl plain_nsl]. rewrite mu_seq_app. cbn [fst snd].
+    destruct (IHn st Hn Hty1) as (F1 & P1 & Q1). destruct (IHr (fst (emit_ns cf up st n)) Hr Hty2) as (F2 & P2 & Q2). rewrite <- F1.
+    split; [exact F2|]. rewrite vals_of_app, !filter_app, P1, P2, Q1, Q2. split; reflexivity.
+Qed.
+
+Definition sfx_of (x : str) : str := x ++ s_sidebar_sfx.
+
+Lemma sidebar_types_exact ts : ids (sidebar_types cf ts) = map sfx_of (plain_types ts).
+Proof.
+  induction ts as [|[sn t] r IH]; [reflexivity|]. unfold plain_types, listed in *. cbn [sidebar_types flat_map fst snd]. rewrite vals_of_app, map_app, map_app, IH.
+  f_equal. destruct (str_eqb sn namespace_doc_key); [reflexivity|]. destruct (comp_info t) as [c|]; [|reflexivity].
+  rewrite !vals_of_elem.
+  match goal with |- context [attr_vals k_id [(k_id, ?x); (k_href, ?h); (k_class, ?y)]] =>
+    change (attr_vals k_id [(k_id, x); (k_href, h); (k_class, y)]) with [x] end.
+  match goal with |- context [attr_vals k_id [(k_class, ?x)]] => change (attr_vals k_id [(k_class, x)]) with (@nil str) end.
+  cbn [app vals_of flat_map map]. rewrite Hsb. reflexivity.
+Qed.
+
+Lemma emit_sidebar_exact :
+  (forall n, ids (emit_sidebar cf n) = map sfx_of (plain_ns n)) /\ (forall l, ids (emit_sidebar_l cf l) = map sfx_of (plain_nsl l)).
+Proof.
+  apply nst_nsl_ind.
+  - intros name docs types subs IH. rewrite emit_sidebar_unfold. cbn [plain_ns map].
+    rewrite !vals_of_app, !vals_of_elem, !vals_of_app, !vals_of_elem, ids_doc_opt, sidebar_types_exact, IH.
+    match goal with |- context [attr_vals k_id [(k_target, ?x); (k_onclick, ?y); (k_controls, ?z)]] =>
+      change (attr_vals k_id [(k_target, x); (k_onclick, y); (k_controls, z)]) with (@nil str) end.
+    match goal with |- context [attr_vals k_id [(k_href, ?h); (k_class, ?y)]] => change (attr_vals k_id [(k_href, h); (k_class, y)]) with (@nil str) end.
+    change (attr_vals k_id [(k_class, s_textnowrap)]) with (@nil str).
+    match goal with |- context [attr_vals k_id [(k_class, ?x); (k_id, ?y)]] => change (attr_vals k_id [(k_class, x); (k_id, y)]) with [y] end.
+    cbn [app vals_of flat_map]. nilr. rewrite Hsb, map_app. reflexivity.
+  - reflexivity.
+  - intros n IHn r IHr. change (emit_sidebar_l cf (NCons n r)) with (emit_sidebar cf n ++ emit_sidebar_l cf r).
+    cbn [plain_nsl]. rewrite vals_of_app, map_app, IHn, IHr. reflexivity.
+Qed.
+End Levels2.
+
+(* ---------- assembly ---------- *)
+Lemma NoDup_partition {A} (p : A -> bool) l : NoDup (filter p l) -> NoDup (filter (fun x => negb (p x)) l) -> NoDup l.
+Proof.
+  induction l as [|x l IH]; intros H1 H2; [constructor|]. cbn [filter] in *. destruct (p x) eqn:E; cbn [negb] in *.
+  - inversion H1 as [|? ? Hn Hr]; subst. constructor; [|apply IH; assumption]. intros Hin. apply Hn, filter_In. split; assumption.
+  - inversion H2 as [|? ? Hn Hr]; subst. constructor; [|apply IH; assumption]. intros Hin. apply Hn, filter_In. split; [assumption|rewrite E; reflexivity].
+Qed.
+
+Lemma nodup_app_intro {A} (a b : list A) : NoDup a -> NoDup b -> (forall x, In x a -> In x b -> False) -> NoDup (a ++ b).
+Proof.
+  intros Ha Hb Hd. induction Ha as [|x a Hn Ha IH]; [exact Hb|]. cbn. constructor.
+  - intros Hin. apply in_app_or in Hin as [Hin|Hin]; [exact (Hn Hin)|exact (Hd x (or_introl eq_refl) Hin)].
+  - apply IH. intros y Hy Hy2. exact (Hd y (or_intror Hy) Hy2).
+Qed.
+
+Definition lastc (x : str) : N := match rev x with c :: _ => c | [] => 0 end.
+Definition q_ok (x : str) : bool := negb (lastc x =? 114) && negb (lastc x =? 111).
+
+Lemma ends_sfx_last x : ends_with x s_sidebar_sfx = true -> lastc x = 114.
+Proof.
+  unfold ends_with, lastc. cbn [rev s_sidebar_sfx app]. destruct (rev x) as [|c r]; [discriminate|]. cbn [starts_with].
+  intros H. apply andb_prop in H as [H _]. apply N.eqb_eq in H. symmetry. exact H.
+Qed.
+Lemma q_ns name : q_ok (ns_id name) = true.
+Proof. unfold q_ok, lastc, ns_id. rewrite ns_scheme_now, rev_app_distr. reflexivity. Qed.
+Lemma q_tag t : ti_is_array t = false -> version_ok t = true -> q_ok (filter_tag_id t) = true.
+Proof.
+  intros Harr Hv. destruct (version_ok_spec _ Hv) as [_ [Mi _]]. rewrite (tag_id_shape (proj1 id_scheme_now) t Harr). unfold dash_shape, q_ok, lastc.
+  destruct (dec_Z_nonempty _ Mi) as (d & r & Er & Hdg). rewrite rev_app_distr. cbn [rev]. rewrite <- app_assoc, Er. cbn [app].
+  unfold is_digit in Hdg. destruct (N.eqb_spec d 114) as [->|]; [discriminate Hdg|]. destruct (N.eqb_spec d 111) as [->|]; [discriminate Hdg|]. reflexivity.
+Qed.
+Lemma q_nested x : nested_shape x = true -> q_ok x = true.
+Proof.
+  unfold nested_shape, q_ok, lastc. destruct (rev x) as [|c r]; [discriminate|]. cbn [drop_while]. destruct (is_digit c) eqn:D.
+  - intros _. unfold is_digit in D. destruct (N.eqb_spec c 114) as [->|]; [discriminate D|]. destruct (N.eqb_spec c 111) as [->|]; [discriminate D|]. reflexivity.
+  - intros H. destruct (N.eqb_spec c 114) as [->|]; [discriminate H|]. destruct (N.eqb_spec c 111) as [->|]; [discriminate H|]. reflexivity.
+Qed.
+
+Lemma q_plain_types ts : (forall c, In c (listed ts) -> type_ok c) -> forallb q_ok (plain_types ts) = true.
+Proof.
+  unfold plain_types. intros H. apply forallb_forall. intros x Hx. apply in_map_iff in Hx as (c & <- & Hc). destruct (H c Hc) as [A V]. apply q_tag; assumption.
+Qed.
+Lemma q_plain_ns :
+  (forall n, types_ok_ns n -> forallb q_ok (plain_ns n) = true) /\ (forall l, types_ok_nsl l -> forallb q_ok (plain_nsl l) = true).
+Proof.
+  apply nst_nsl_ind.
+  - intros name docs types subs IH [Hty Hs]. cbn [plain_ns forallb]. rewrite q_ns, forallb_app, (q_plain_types _ Hty), (IH Hs). reflexivity.
+  - reflexivity.
+  - intros n IHn r IHr [H1 H2]. cbn [plain_nsl]. rewrite forallb_app, (IHn H1), (IHr H2). reflexivity.
+Qed.
+
+Lemma NoDup_map_sfx l : NoDup l -> NoDup (map sfx_of l).
+Proof.
+  intros H. induction H as [|x l Hn Hl IH]; [constructor|]. cbn. constructor; [|exact IH].
+  intros Hin. apply in_map_iff in Hin as (y & E & Hy). unfold sfx_of in E. apply app_inv_tail in E. subst y. exact (Hn Hy).
+Qed.
+
+(* PAGE-LEVEL NoDup: all ids of a namespace page are pairwise distinct *)
+Theorem page_ids_nodup cf n :
+  ae_ti cf = false -> ae_ni cf = false -> ae_sb cf = false ->
+  tops_ok n = true -> types_ok_ns n -> NoDup (plain_ns n) ->
+  NoDup (page_ids cf n).
+Proof.
+  intros Hti Hni Hsb Hok Hty Hpl.
+  destruct (proj1 (emit_ns_exact cf Hti Hni (up_of (ns_name n))) n ung_reset Hok Hty) as (_ & P & Q).
+  set (MN := ids (snd (emit_ns cf (up_of (ns_name n)) ung_reset n))) in *.
+  assert (HMN : NoDup MN).
+  { apply (NoDup_partition nested_shape); [rewrite P; apply make_unique_sequence_nodup, (proj2 id_scheme_now)|rewrite Q; exact Hpl]. }
+  assert (QMN : forall x, In x MN -> q_ok x = true).
+  { intros x Hx. destruct (nested_shape x) eqn:E; [apply q_nested, E|].
+    assert (In x (filter np MN)) by (apply filter_In; split; [exact Hx|rewrite E; reflexivity]). rewrite Q in H.
+    pose proof (proj1 q_plain_ns n Hty) as F. rewrite forallb_forall in F. apply F, H. }
+  assert (E : page_ids cf n = s_sidebar :: map sfx_of (plain_ns n) ++ s_nsinfo :: MN).
+  { unfold page_ids, ns_page, ns_page_sidebar, ns_page_main. rewrite !vals_of_app, !vals_of_elem.
+    change (attr_vals k_id [(k_id, s_sidebar)]) with [s_sidebar]. change (attr_vals k_id [(k_id, s_nsinfo)]) with [s_nsinfo].
+    change (attr_vals k_id []) with (@nil str). rewrite (proj1 (emit_sidebar_exact cf Hsb) n). cbn [app vals_of flat_map]. nilr. reflexivity. }
+  rewrite E.
+  assert (SBq : forall x, In x (map sfx_of (plain_ns n)) -> lastc x = 114 /\ ends_with x s_sidebar_sfx = true).
+  { intros x Hx. apply in_map_iff in Hx as (y & <- & _). unfold sfx_of. split; [apply ends_sfx_last|]; apply ends_with_sfx. }
+  assert (Qq : forall x, q_ok x = true -> lastc x <> 114 /\ lastc x <> 111).
+  { intros x H. unfold q_ok in H. apply andb_prop in H as [A B]. split; intros Ex; rewrite Ex in *; discriminate. }
+  constructor.
+  - intros Hin. apply in_app_or in Hin as [Hin|[Hin|Hin]].
+    + destruct (SBq _ Hin) as [_ Hend]. discriminate Hend.
+    + discriminate Hin.
+    + destruct (Qq _ (QMN _ Hin)) as [A _]. apply A. reflexivity.
+  - apply nodup_app_intro; [apply NoDup_map_sfx, Hpl| |].
+    + constructor; [|exact HMN]. intros Hin. destruct (Qq _ (QMN _ Hin)) as [_ B]. apply B. reflexivity.
+    + intros x Hx [Hy|Hy].
+      * subst x. destruct (SBq _ Hx) as [_ Hend]. discriminate Hend.
+      * destruct (SBq _ Hx) as [L _]. destruct (Qq _ (QMN _ Hy)) as [A _]. exact (A L).
+Qed.
+
+(* ---------- NoDup (plain_ns n) from distinct names / (name, version) triples ---------- *)
+Notation isns := (fun x => ends_with x s_ddns).
+Lemma ns_is_ns name : ends_with (ns_id name) s_ddns = true.
+Proof. unfold ns_id. rewrite ns_scheme_now. apply ends_with_sfx. Qed.
+Lemma tag_not_ns t : ti_is_array t = false -> version_ok t = true -> ends_with (filter_tag_id t) s_ddns = false.
+Proof.
+  intros Harr Hv. destruct (version_ok_spec _ Hv) as [_ [Mi _]]. rewrite (tag_id_shape (proj1 id_scheme_now) t Harr). unfold dash_shape, ends_with.
+  destruct (dec_Z_nonempty _ Mi) as (d & r & Er & Hdg). rewrite rev_app_distr. cbn [rev]. rewrite <- app_assoc, Er. cbn [app rev s_ddns starts_with].
+  unfold is_digit in Hdg. destruct (N.eqb_spec 115 d) as [<-|]; [discriminate Hdg|reflexivity].
+Qed.
+
+Lemma plain_types_split ts : (forall c, In c (listed ts) -> type_ok c) ->
+  filter isns (plain_types ts) = [] /\ filter (fun x => negb (ends_with x s_ddns)) (plain_types ts) = plain_types ts.
+Proof.
+  intros H. apply filter_none. apply forallb_forall. intros x Hx. unfold plain_types in Hx. apply in_map_iff in Hx as (c & <- & Hc).
+  destruct (H c Hc) as [A V]. rewrite (tag_not_ns _ A V). reflexivity.
+Qed.
+
+Lemma plain_ns_split :
+  (forall n, types_ok_ns n -> filter isns (plain_ns n) = page_LN n
+                              /\ filter (fun x => negb (ends_with x s_ddns)) (plain_ns n) = page_L n)
+  /\ (forall l, types_ok_nsl l -> filter isns (plain_nsl l) = map (fun n' => ns_id (ns_name n')) (all_nsl l)
+                                  /\ filter (fun x => negb (ends_with x s_ddns)) (plain_nsl l) = map (fun c => filter_tag_id (ci_t c)) (all_listed_l l)).
+Proof.
+  apply nst_nsl_ind.
+  - intros name docs types subs IH [Hty Hs]. unfold page_LN, page_L. cbn [plain_ns all_ns all_listed filter map ns_name].
+    rewrite ns_is_ns. cbn [negb]. rewrite !filter_app. destruct (plain_types_split types Hty) as [A B]. destruct (IH Hs) as [C D].
+    rewrite A, B, C, D, map_app. split; reflexivity.
+  - intros _. split; reflexivity.
+  - intros n IHn r IHr [H1 H2]. cbn [plain_nsl all_nsl all_listed_l]. rewrite !filter_app, !map_app.
+    destruct (IHn H1) as [A B]. destruct (IHr H2) as [C D]. unfold page_LN, page_L in *. rewrite A, B, C, D. split; reflexivity.
+Qed.
+
+Lemma NoDup_map_factor {A B C} (f : A -> B) (g : A -> C) l :
+  (forall x y, In x l -> In y l -> f x = f y -> g x = g y) -> NoDup (map g l) -> NoDup (map f l).
+Proof.
+  induction l as [|x l IH]; intros H Hg; [constructor|]. cbn in *. inversion Hg as [|? ? Hn Hr]; subst. constructor.
+  - intros Hin. apply in_map_iff in Hin as (y & E & Hy). apply Hn. rewrite (H x y (or_introl eq_refl) (or_intror Hy) (eq_sym E)).
+    apply in_map. exact Hy.
+  - apply IH; [|exact Hr]. intros a b Ha Hb. apply H; right; assumption.
+Qed.
+
+Lemma types_ok_all :
+  (forall n, types_ok_ns n -> forall c, In c (all_listed n) -> type_ok c) /\ (forall l, types_ok_nsl l -> forall c, In c (all_listed_l l) -> type_ok c).
+Proof.
+  apply nst_nsl_ind.
+  - intros name docs types subs IH [Hty Hs] c Hc. cbn [all_listed] in Hc. apply in_app_or in Hc as [Hc|Hc]; [apply Hty, Hc|apply (IH Hs), Hc].
+  - intros _ c [].
+  - intros n IHn r IHr [H1 H2] c Hc. cbn [all_listed_l] in Hc. apply in_app_or in Hc as [Hc|Hc]; [apply (IHn H1), Hc|apply (IHr H2), Hc].
+Qed.
+
+Definition tkey (c : cinfo) : str * Z * Z := (ti_full_name (ci_t c), ti_major (ci_t c), ti_minor (ci_t c)).
+
+Theorem plain_ns_nodup n :
+  types_ok_ns n ->
+  (forall c, In c (all_listed n) -> no_dash (ti_full_name (ci_t c)) = true) -> NoDup (map tkey (all_listed n)) ->
+  (forall n', In n' (all_ns n) -> no_dash (ns_name n') = true) -> NoDup (map ns_name (all_ns n)) ->
+  NoDup (plain_ns n).
+Proof.
+  intros Hty Hnd Hk Hnn Hns. destruct (proj1 plain_ns_split n Hty) as [A B].
+  apply (NoDup_partition (fun x => ends_with x s_ddns)); [rewrite A|rewrite B].
+  - unfold page_LN. apply (NoDup_map_factor _ ns_name); [|exact Hns]. intros x y Hx Hy E.
+    apply (ns_id_injective ns_scheme_now); [apply Hnn, Hx|apply Hnn, Hy|exact E].
+  - unfold page_L. apply (NoDup_map_factor _ tkey); [|exact Hk]. intros x y Hx Hy E.
+    destruct (proj1 types_ok_all n Hty x Hx) as [Ax Vx]. destruct (proj1 types_ok_all n Hty y Hy) as [Ay Vy].
+    destruct (tag_id_injective (proj1 id_scheme_now) _ _ Ax Ay (Hnd _ Hx) (Hnd _ Hy) Vx Vy E) as (E1 & E2 & E3).
+    unfold tkey. rewrite E1, E2, E3. reflexivity.
+Qed.
+
+(* all ids of a namespace page are pairwise distinct, for every namespace tree whose namespaces have distinct dash-free names
+   and whose listed types are composites with distinct (name, major, minor), dash-free names and versions in 0..255 *)
+Theorem page_ids_nodup_full cf n :
+  ae_ti cf = false -> ae_ni cf = false -> ae_sb cf = false ->
+  tops_ok n = true -> types_ok_ns n ->
+  (forall c, In c (all_listed n) -> no_dash (ti_full_name (ci_t c)) = true) -> NoDup (map tkey (all_listed n)) ->
+  (forall n', In n' (all_ns n) -> no_dash (ns_name n') = true) -> NoDup (map ns_name (all_ns n)) ->
+  NoDup (page_ids cf n).
+Proof. intros A B C D E F G H I. apply page_ids_nodup; try assumption. apply plain_ns_nodup; assumption. Qed.
